@@ -71,7 +71,7 @@ class Machine(object):
         entropy.lazy_init_stream = True
 
     def budget(self, tier):
-        return 3500 if tier == "quick" else 400000
+        return 3500 if tier == "quick" else 120000
 
     def classify_crash(self, case, pid, status, text):
         c = engine.Ctx()
